@@ -274,7 +274,7 @@ def RKstep1(
     for i in numba.prange(N):
         Xp[i] = X[i] + frac * U[i] * dtdx[i]
         Yp[i] = Y[i] + frac * V[i] * dtdy[i]
-    return X, Y
+    return Xp, Yp
 
 
 RKstep = RKstep1
